@@ -274,6 +274,19 @@ theorem C19_put_copies (h : Heap) (hw : h.WF) (hv : HVal) (vs : List V) (F : Lis
     · exact hds a ha hh
     · have := hFs a ha; omega
 
+/-- **`cif_value_set_element_at` replaces in place** (heap level): for a new value that is not part of the element
+    replaced, the element object is cleaned and rebuilt — the list afterwards represents `vs.set i x`, on the same list
+    object and pointer array (so references to the list and to the *other* elements stay valid, and the reference to the
+    replaced element still designates the element, now holding the new value), the old components are released, the new
+    ones are fresh, nothing outside the list is touched. -/
+theorem C19_set_replaces_in_place (h : Heap) (hw : h.WF) (hv : HVal) (vs : List V) (F : List Nat) (i : Nat) (x : Option V)
+    (hr : Rep h hv (.lst vs) F) (hF : ∀ a, a ∈ F → a < h.next) (hi : i < vs.length) :
+    ∃ h' F', listSetH (need (.lst vs)) h hv i x = some h' ∧ Rep h' hv (.lst (vs.set i (x.getD .unk))) F' ∧ h'.WF
+      ∧ (∀ a, a < h.next → a ∉ F → h'.cell a = h.cell a)
+      ∧ (∀ a, a ∈ F → a ∉ F' → h'.cell a = none)
+      ∧ (∀ a, h.next ≤ a → a < h'.next → a ∈ F') ∧ (∀ a, a ∈ F' → a < h'.next) :=
+  listSetH_spec h hw hv vs F i x hr hF hi
+
 /-- the capacity sequence of a list grown by appending: 0, 4, 8, 12, 18, 27, 40 (value.c: `cap + (cap < 10 ? 4 : cap / 2)`,
     the three constants re-extracted from the source on every run) -/
 theorem C19_capacity_growth :
